@@ -1100,15 +1100,21 @@ class Tensor:
         ):
             # Python scalars are "weakly" typed in NumPy 2 (NEP 50): they must not
             # promote the dtype of the array/tensor operands they are combined with
-            _dtypes = [
-                (
-                    var.dtype
-                    if isinstance(var, (Tensor, np.ndarray, np.generic))
-                    else np.asarray(var).dtype
-                )
-                for var in input_vars
-                if type(var) not in (bool, int, float)
-            ]
+            _loop_dtype = op_kwargs.get("dtype") if op_kwargs else None
+            if _loop_dtype is not None:
+                # an explicit `dtype` is the precision of the calculation itself:
+                # the scalar is converted to it directly, as NumPy does
+                _dtypes = [np.dtype(_loop_dtype)]
+            else:
+                _dtypes = [
+                    (
+                        var.dtype
+                        if isinstance(var, (Tensor, np.ndarray, np.generic))
+                        else np.asarray(var).dtype
+                    )
+                    for var in input_vars
+                    if type(var) not in (bool, int, float)
+                ]
             tensor_vars = tuple(
                 (
                     cls(
